@@ -188,4 +188,57 @@ theorem im0_rst (s : St) (i : Interrupt) (hi : s.Interrupt = some i) (hm : s.Mem
   · exact im0_rst_f7 s i hi hm hn hf him hd
   · exact im0_rst_ff s i hi hm hn hf him hd
 
+-- CALL nn supplied in mode 0 (three-byte window) ------------------------------------------
+
+theorem offI1 (pc : U16) : (((65536 - pc.toNat : Nat) : Int) + ((pc.toNat : Int) + 1)) % 65536 = 1 := by have := pc.isLt; omega
+theorem offI2 (pc : U16) : (((65536 - pc.toNat : Nat) : Int) + ((pc.toNat : Int) + 1 + 1)) % 65536 = 2 := by have := pc.isLt; omega
+theorem offN1 (pc : U16) : (65536 - pc.toNat + (pc.toNat + 1)) % 65536 = 1 := by have := pc.isLt; omega
+theorem offN2 (pc : U16) : (65536 - pc.toNat + (pc.toNat + 1 + 1)) % 65536 = 2 := by have := pc.isLt; omega
+/-- a inside the three-byte window at pc -/
+def inW (pc a : U16) : Prop := (a - pc).toNat < 3
+instance (pc a : U16) : Decidable (inW pc a) := by unfold inW; infer_instance
+/-- window membership, Int form produced by the translated guard ↔ the reference's form -/
+theorem winI1 (pc sp : U16) : (((65536 - pc.toNat : Nat) : Int) + (65535 + (sp.toNat : Int))) % 65536 < 3 ↔ inW pc (sp + 65535#16) := by
+  have := pc.isLt; have := sp.isLt
+  simp [inW, BitVec.toNat_sub, BitVec.toNat_add]; omega
+theorem winI2 (pc sp : U16) : (((65536 - pc.toNat : Nat) : Int) + (65535 + (65535 + (sp.toNat : Int)))) % 65536 < 3 ↔ inW pc (sp + 65534#16) := by
+  have := pc.isLt; have := sp.isLt
+  simp [inW, BitVec.toNat_sub, BitVec.toNat_add]; omega
+theorem winN (pc a : U16) : (65536 - pc.toNat + a.toNat) % 65536 < 3 ↔ inW pc a := by
+  have := pc.isLt; have := a.isLt
+  simp [inW, BitVec.toNat_sub]
+theorem spm1 (x : U16) : x - 1#16 = x + 65535#16 := by bv_omega
+theorem spm2 (x : U16) : x - 1#16 - 1#16 = x + 65534#16 := by bv_omega
+
+set_option maxHeartbeats 4000000 in
+/-- mode 0, the device supplies CALL nn: for EVERY state and every nn the regenerated Step is exactly the recorded
+    description (pushes PC+3: KF-1; pushed bytes landing inside [PC,PC+3) are dropped: KF-2) -/
+theorem im0_call (s : St) (i : Interrupt) (hi : s.Interrupt = some i) (hm : s.Memory = .user) (hn : i.Type_ ≠ 0)
+    (hf : s.IFF1 = true) (him : s.IM = 0) (lo hi' : U8) (hd : i.Data = [0xcd#8, lo, hi']) :
+    Gen.Step s = Spec.stepKF Impl.koron s := by
+  simp (config := {implicitDefEqProofs := false}) [Gen.Step, Gen.processInterrupt, hi, hn, hf, him, hd, hm, Gen.newIm0data, Gen.executeOne, Gen.fetchM1, Gen.fetch, Gen.Memory_Get,
+    Gen.Memory_Set, idx_run, executeOne_sw_at_cd, executeOne_arm_cd, z80gen, goLen, offI1, offI2, offN1, offN2,
+    Spec.stepKF, isNMI, koronIM0, Spec.executeOne, Spec.fetchM1, Spec.fetch, Spec.fetch16, rd8, overlayMem, inWindow, execMain, execOpt, decodeBase, exec,
+    push16, wr16, wr8, Impl.koron]
+  simp only [winI1, winI2, winN, spm2, spm1, sp2, sp21]
+  have hne : s.SP + 65534#16 ≠ s.SP + 65535#16 := by bv_omega
+  have hne' : s.SP + 65535#16 ≠ s.SP + 65534#16 := by bv_omega
+  have w0 : inW s.PC s.PC := by simp [inW]
+  have e1 : s.PC + 1#16 - s.PC = 1#16 := by bv_omega
+  have e2 : s.PC + 1#16 + 1#16 - s.PC = 2#16 := by bv_omega
+  have w1 : inW s.PC (s.PC + 1#16) := by unfold inW; rw [e1]; decide
+  have w2 : inW s.PC (s.PC + 1#16 + 1#16) := by unfold inW; rw [e2]; decide
+  have n1 : s.SP + 65535#16 + 65535#16 = s.SP + 65534#16 := by bv_omega
+  have n2 : s.SP + 65534#16 + 1#16 = s.SP + 65535#16 := by bv_omega
+  rw [n1, n2]
+  have e3 : s.PC + 2#16 - s.PC = 2#16 := by bv_omega
+  have w2' : inW s.PC (s.PC + 2#16) := by unfold inW; rw [e3]; decide
+  by_cases hA : inW s.PC (s.SP + 65535#16) <;> by_cases hB : inW s.PC (s.SP + 65534#16) <;>
+  · simp [hA, hB, w0, w1, w2, w2', evAddr, incR, z80helper, winN]
+    first
+      | done
+      | (funext a
+         by_cases ha : inW s.PC a <;> by_cases h4 : a = s.SP + 65534#16 <;> by_cases h5 : a = s.SP + 65535#16 <;>
+           simp_all [upd, overlayMem, inWindow, winN])
+
 end Z80
